@@ -60,6 +60,7 @@ const (
 	c36FTrigBlock = "C36-trigger-block-no-delimiter"
 	c36FEnumDef   = "C36-enum-set-default"
 	c36FViewCmt   = "C36-view-trailing-comment"
+	c36FEarlyYear = "C36-date-year-below-1000"
 )
 
 func c36IsOpen(id string) bool {
@@ -89,6 +90,7 @@ func c36NewGate() *c36Gate {
 		noBlockTrigger: c36IsOpen(c36FTrigBlock),
 		noEnumDefault:  c36IsOpen(c36FEnumDef),
 		noViewComment:  c36IsOpen(c36FViewCmt),
+		noEarlyYear:    c36IsOpen(c36FEarlyYear),
 	}
 }
 
@@ -226,8 +228,8 @@ func c36ParseSections(out string, names []string) ([]c36Section, error) {
 }
 
 func c36Clip(s string) string {
-	if len(s) > 700 {
-		return s[:700] + "…(" + fmt.Sprint(len(s)) + " bytes)"
+	if len(s) > 900 {
+		return s[:450] + "…(" + fmt.Sprint(len(s)) + " bytes)…" + s[len(s)-450:]
 	}
 	return s
 }
@@ -420,7 +422,7 @@ func TestVerif_C36(t *testing.T) {
 	defer os.RemoveAll(e.root)
 	gate := c36NewGate()
 	var open []string
-	for _, id := range []string{c36FBit, c36FGeo, c36FYear, c36FViewOrder, c36FTrigBlock, c36FEnumDef, c36FViewCmt} {
+	for _, id := range []string{c36FBit, c36FGeo, c36FYear, c36FViewOrder, c36FTrigBlock, c36FEnumDef, c36FViewCmt, c36FEarlyYear} {
 		if c36IsOpen(id) {
 			open = append(open, id)
 		}
